@@ -197,7 +197,7 @@ def build_unit(unit_dir, out_path, mutate=None, neg_control=False, bodies=None, 
         opts = {"stub_only": item.get("stub_only", False),
                 "rewrites": set(item.get("rewrites", rewrites)) | set(item.get("rewrites_add", [])),
                 "r4_statements": item.get("r4_statements", ()),
-                "r10_only": item.get("r10_only"), "r13_idents": item.get("r13_idents", ()), "r16_only": item.get("r16_only"), "abstract_lets": item.get("abstract_lets", ()), "r22_map_sources": item.get("r22_map_sources", ()), "for_map_idents": item.get("for_map_idents", ()),
+                "r10_only": item.get("r10_only"), "r13_idents": item.get("r13_idents", ()), "r16_only": item.get("r16_only"), "abstract_lets": item.get("abstract_lets", ()), "r22_map_sources": item.get("r22_map_sources", ()), "for_map_idents": item.get("for_map_idents", ()), "abstract_closure_bodies": item.get("abstract_closure_bodies", ()), "extend_vec_idents": item.get("extend_vec_idents", ()),
                 "drop_derives": item.get("drop_derives", ())}
         if kind in ("fn", "struct", "enum", "trait", "type", "const", "static"):
             found = sf.find(kind, item["name"])
